@@ -1,4 +1,90 @@
-(* placeholder until proofs land *)
-From PV Require Import Model.Condensed.
-Theorem C20_placeholder : True. Proof. exact I. Qed.
-Print Assumptions C20_placeholder.
+(* C20  Condensed-matrix indexing, 1-D pair metrics and constraint propagation are exact.
+   Index maps in exact integer arithmetic (the float side is tied by the correspondence,
+   not proved). [kidx n i j] is the closed form i*n - i(i+3)/2 + j - 1. Statements only. *)
+From PV Require Import Model.Condensed Proofs.CondensedP.
+
+Theorem C20_condensed_symmetric : forall n i j, to_condensed n i j = to_condensed n j i.
+Proof. exact condensed_sym. Qed.
+Theorem C20_condensed_rejects_diagonal : forall n i j, to_condensed n i j = None <-> i = j.
+Proof. exact condensed_rejects_diag. Qed.
+Theorem C20_condensed_closed_form : forall n i j, i < j -> to_condensed n i j = Some (kidx n i j).
+Proof. exact to_condensed_lt. Qed.
+
+(* row-major numbering 0 .. n(n-1)/2 - 1 of the pairs i < j < n *)
+Theorem C20_rowmajor_first : forall n, kidx n 0 1 = 0.
+Proof. exact condensed_first. Qed.
+Theorem C20_rowmajor_next_in_row : forall n i j, kidx n i (j + 1) = kidx n i j + 1.
+Proof. exact condensed_next_in_row. Qed.
+Theorem C20_rowmajor_next_row : forall n i, kidx n (i + 1) (i + 2) = kidx n i (n - 1) + 1.
+Proof. exact condensed_next_row. Qed.
+Theorem C20_rowmajor_last : forall n, 2 * (kidx n (n - 2) (n - 1) + 1) = n * (n - 1).
+Proof. exact condensed_last. Qed.
+Theorem C20_rowmajor_strictly_increasing : forall n i j i' j',
+  0 <= i -> i < j -> j < n -> 0 <= i' -> i' < j' -> j' < n ->
+  (i < i' \/ (i = i' /\ j < j')) -> kidx n i j < kidx n i' j'.
+Proof. exact condensed_monotone. Qed.
+Theorem C20_rowmajor_range : forall n i j, 0 <= i -> i < j -> j < n ->
+  0 <= kidx n i j /\ 2 * (kidx n i j + 1) <= n * (n - 1).
+Proof. exact condensed_range. Qed.
+
+(* to_squared is the inverse, both ways *)
+Theorem C20_squared_of_condensed : forall n i j, 0 <= i -> i < j -> j < n ->
+  to_squared n (kidx n i j) = (i, j).
+Proof. exact squared_of_condensed. Qed.
+Theorem C20_condensed_of_squared : forall n k, 0 <= n -> 0 <= k -> 2 * (k + 1) <= n * (n - 1) ->
+  let '(i, j) := to_squared n k in 0 <= i /\ i < j /\ j < n /\ to_condensed n i j = Some k.
+Proof. exact condensed_of_squared. Qed.
+
+(* pdist holds f(x_i, x_j) at position to_condensed(n, i, j); cdist entry (i, j) is f(x_i, y_j) *)
+Theorem C20_pdist_layout : forall (A B : Type) (f : A -> A -> B) (da : A) (db : B) xs i j,
+  0 <= i -> i < j -> j < Z.of_nat (length xs) ->
+  nth (Z.to_nat (kidx (Z.of_nat (length xs)) i j)) (pdist1d f xs) db
+  = f (nth (Z.to_nat i) xs da) (nth (Z.to_nat j) xs da).
+Proof. exact @pdist_layout. Qed.
+Theorem C20_cdist_entry : forall (A B : Type) (f : A -> A -> B) (da : A) (db : B) xs ys i j,
+  (i < length xs)%nat -> (j < length ys)%nat ->
+  nth j (nth i (cdist1d f xs ys) []) db = f (nth i xs da) (nth j ys da).
+Proof. exact @cdist_entry. Qed.
+Theorem C20_pdist_short_inputs : forall (A B : Type) (f : A -> A -> B) xs,
+  (length xs <= 1)%nat -> pdist1d f xs = [].
+Proof. exact @pdist_short. Qed.
+Theorem C20_metric_definitions : forall x y,
+  metric_fn MEqual x y = (if x =? y then 1 else 0) /\ metric_fn MMin x y = Z.min x y /\
+  metric_fn MMax x y = Z.max x y /\ metric_fn MAvg x y = x + y.
+Proof. exact metric_defs. Qed.
+
+(* propagate_constraints (partial): whatever it returns contains the given cannot-link pairs and is
+   closed under (u != v) & (v == w) ==> u != w with no must-link pair inside it.
+   NOT proved: minimality (nothing but implied pairs), the exact ValueError condition, and
+   termination within the fuel; those are decided by the exhaustive correspondence on small graphs. *)
+Theorem C20_propagate_closed_partial : forall cl ml r,
+  propagate cl ml = Some (Some r) -> pass_closed r ml.
+Proof. exact propagate_closed. Qed.
+Theorem C20_propagate_extends_partial : forall cl ml r q,
+  propagate cl ml = Some (Some r) -> ps_mem q (ps_of (map sorted_pair cl)) = true -> ps_mem q r = true.
+Proof. intros cl ml r q. apply prop_loop_extends. Qed.
+
+Example C20_nonvacuous :
+  to_condensed 5 3 1 = Some 5 /\ to_squared 5 5 = (1, 3) /\
+  pdist1d Z.min [3; 1; 2] = [1; 2; 1] /\
+  propagate [(0, 1)] [(1, 2); (2, 3)] = Some (Some [(0, 1); (0, 2); (0, 3)]) /\
+  propagate [(0, 2)] [(0, 1); (1, 2)] = Some None.
+Proof. vm_compute. repeat split. Qed.
+
+Print Assumptions C20_condensed_symmetric.
+Print Assumptions C20_condensed_rejects_diagonal.
+Print Assumptions C20_condensed_closed_form.
+Print Assumptions C20_rowmajor_first.
+Print Assumptions C20_rowmajor_next_in_row.
+Print Assumptions C20_rowmajor_next_row.
+Print Assumptions C20_rowmajor_last.
+Print Assumptions C20_rowmajor_strictly_increasing.
+Print Assumptions C20_rowmajor_range.
+Print Assumptions C20_squared_of_condensed.
+Print Assumptions C20_condensed_of_squared.
+Print Assumptions C20_pdist_layout.
+Print Assumptions C20_cdist_entry.
+Print Assumptions C20_pdist_short_inputs.
+Print Assumptions C20_metric_definitions.
+Print Assumptions C20_propagate_closed_partial.
+Print Assumptions C20_propagate_extends_partial.
